@@ -116,6 +116,30 @@ fn qts_counter_anywhere() {
     std::mem::forget(st);
 }
 
+/// the top of the identifier range: ids handed out there are still distinct, stable and decodable; running out of
+/// identifiers is refused (the counter's overflow check -- an allowed failure of this harness, as Dictionary's
+/// exhaustion assert is in dict_exhaustion_never_clashes), never answered by handing out an id twice
+#[kani::proof]
+#[kani::unwind(7)]
+fn qts_counter_at_the_top() {
+    let mut st = QuotedTripleStore::new();
+    let start: u32 = kani::any();
+    kani::assume(start >= 0xFFFF_FFFD);
+    st.next_qt_id = start;
+    let a: T3 = kani::any();
+    let b: T3 = kani::any();
+    let c: T3 = kani::any();
+    let ia = enc(&mut st, a);
+    let ib = enc(&mut st, b);
+    let ic = enc(&mut st, c);
+    assert!(is_quoted_triple_id(ia) && is_quoted_triple_id(ib) && is_quoted_triple_id(ic));
+    assert!((ia == ib) == (a == b) && (ia == ic) == (a == c) && (ib == ic) == (b == c), "distinct terms never share an identifier, also at the top of the range");
+    assert!(st.decode(ia) == Some(a) && st.decode(ib) == Some(b) && st.decode(ic) == Some(c), "ids handed out earlier still decode to their term");
+    kani::cover!(ia != ib && ib == ic, "two distinct ids near the top");
+    kani::cover!(ic == u32::MAX - 1 || ib == u32::MAX - 1, "an id next to the last one is handed out");
+    std::mem::forget(st);
+}
+
 /// merge never changes what an id of the receiving store decodes to, and keeps its terms' ids
 #[kani::proof]
 #[kani::unwind(7)]
